@@ -5,13 +5,21 @@ compare with parsing the bytes from p onward on their own; the stream must be le
 after the extent are randomised and must not matter; bytes / bytearray / memoryview / BytesIO / a minimal file-like
 object and the call forms T(x), T.read(x), T.reads(x), cs.read(name, x) must agree; preceding reads on the same stream
 must not matter.
+
+Top-level unions (harness/s3_c09.py:union_tree): the whole matrix (offsets, every input kind under every call form, a
+preceding read) is also run with UNION types as the top-level type - fixed-size unions whose members have unused bit-field
+bits, padding or different sizes (any member first) and dynamically sized unions.
+Long runs (s3_c09.long_case): inputs valid by construction with 0..520 array elements (null-terminated, expression-sized,
+EOF; char, wchar, integers, enum, LEB128, structures) stand-alone (cs.char[None] ...), as a member followed by fields, two
+in one structure, nested, and three consecutive records on one stream; value and encoded size come from the independent
+reference parser, so a right value with a wrong stream position is seen.
 """
 from __future__ import annotations
 
 import io
 import itertools
 
-from .. import defs, impl, refimpl
+from .. import defs, impl, refimpl, s3_c09
 from ..common import Result, mkrng
 from ..structprops import Engine, load, real_parse, rand_bytes, has_eof
 
@@ -33,12 +41,231 @@ class MiniFile:
         return self._b.tell()
 
 
+def parse_plain(T, data, pos=0):
+    """like structprops.real_parse but for any type (arrays have no _sizes)"""
+    s = io.BytesIO(data)
+    s.seek(pos)
+    try:
+        v = T._read(s) if pos else T(s)
+    except Exception as e:  # noqa: BLE001
+        return ("err", impl.err_class(e))
+    sizes = sorted((k, n) for k, n in v._sizes.items() if n) if hasattr(v, "_sizes") else None
+    return ("ok", impl.canon(v), s.tell(), sizes)
+
+
+def eq(a, b, ignore_union_buf=True):
+    """impl.same_val with a fast path (long arrays)"""
+    return a == b or impl.same_val(a, b, ignore_union_buf=ignore_union_buf)
+
+
+def probe(eng, res, rnd, L, T, tree, body, base, sigs, *, model=True, named=True, note=None, extent=True):
+    """the C09 predicates for one (type, accepted input): start offsets, input kinds x call forms, a preceding read.
+    extent=False: the bytes after the position the parse leaves the stream at are kept as they are (as for x[EOF])"""
+    endian, align, compiled = L.endian, L.align, L.compiled
+    extra = {"type": note} if note else {}
+    consumed = base[2]
+    A = max(1, T.alignment or 1) if align else 1
+    offsets = sorted({0, A, 2 * A, 3 * A, 16 * A, A * rnd.randint(1, 40)} | (set(range(0, 18)) if not align else set()))
+    if len(body) > 200:
+        offsets = sorted(set(rnd.sample(offsets, min(len(offsets), 5))) | {0, 64 * A})
+    for p in offsets:
+        pre = bytes(rnd.randrange(256) for _ in range(p))
+        # bytes after the extent are replaced by noise (EOF arrays own the rest of the input by definition)
+        keep = has_eof(tree) or not extent
+        tail = body[consumed:] if keep else bytes(rnd.randrange(256) for _ in range(rnd.choice([0, 1, 9])))
+        data = (pre + body) if keep else (pre + body[:consumed].ljust(consumed, b"\x00") + tail)
+        s = io.BytesIO(data)
+        s.seek(p)
+        try:
+            obj = T(s) if p == 0 else T.read(s)
+            got = ("ok", impl.canon(obj), s.tell())
+        except Exception as e:  # noqa: BLE001
+            got = ("err", impl.err_class(e))
+        res.count((L.text, note, endian, align, compiled, body, p, "offset"), p > 0)
+        res.feat("offset>0" if p else "offset=0")
+        cd = eng.case_data(L, data=data, pos=p, **extra)
+        if got[0] != "ok" or not eq(base[1], got[1]) or got[2] != p + consumed:
+            eng.report(f"parsing at offset {p} gives {str(got)[:220]}; the bytes on their own give {str(base[1])[:200]} consuming {consumed}", cd, sigs)
+        if model and "F23" not in sigs and not compiled and base[3] is not None:
+            eng.model_read(L, data, p, (got[0], got[1], got[2], base[3]) if got[0] == "ok" else got, f"read at offset {p}", sigs)
+    # input kinds and call forms on the bytes alone
+    data = body
+    forms = {
+        "T(bytes)": lambda: T(data), "T(bytearray)": lambda: T(bytearray(data)), "T(memoryview)": lambda: T(memoryview(data)),
+        "T(BytesIO)": lambda: T(io.BytesIO(data)), "T(file-like)": lambda: T(MiniFile(data)),
+        "T.read(bytes)": lambda: T.read(data), "T.read(bytearray)": lambda: T.read(bytearray(data)), "T.read(BytesIO)": lambda: T.read(io.BytesIO(data)),
+        "T.read(memoryview)": lambda: T.read(memoryview(data)), "T.read(file-like)": lambda: T.read(MiniFile(data)),
+        "T.reads(bytes)": lambda: T.reads(data), "T.reads(bytearray)": lambda: T.reads(bytearray(data)), "T.reads(memoryview)": lambda: T.reads(memoryview(data)),
+    }
+    if named:
+        forms.update({
+            "cs.read(name, bytes)": lambda: L.cs.read("T", data), "cs.read(name, BytesIO)": lambda: L.cs.read("T", io.BytesIO(data)),
+            "cs.read(name, bytearray)": lambda: L.cs.read("T", bytearray(data)), "cs.read(name, memoryview)": lambda: L.cs.read("T", memoryview(data)),
+        })
+    # the call-form predicate involves no dumping: finding F9F10 (incomplete union dumps) cannot excuse a difference here
+    fsigs = [x for x in sigs if x != "F9F10"]
+    top = tree[0] if tree[0] in ("struct", "union") else "array"
+    if tree[0] == "struct" and len(tree[1]) == 1 and tree[1][0]["bits"] and tree[1][0]["ty"] == ("sc", "char"):
+        # struct T { char f1 : 2; }: the "single char/bytes member" shortcut of StructureMetaType.__call__ used to ignore that the
+        # member is a bit-field (T(b"\xf5") was taken as initialisation); found by this matrix, repaired (fixed F42), checked again
+        res.feat("form: T(bytes) on a structure whose only member is a char bit-field")
+    if len(body) > 200:  # long inputs: a sample of the forms per case
+        forms = {k: forms[k] for k in rnd.sample(sorted(forms), 7)}
+    for name, fn in forms.items():
+        try:
+            got = ("ok", impl.canon(fn()))
+        except Exception as e:  # noqa: BLE001
+            got = ("err", impl.err_class(e))
+        res.count((L.text, note, endian, align, compiled, body, name), True)
+        res.feat("form:" + name)
+        res.feat(f"form-on:{top}")
+        if got[0] != "ok" or not eq(base[1], got[1]):
+            eng.report(f"{name} gives {str(got)[:200]}, T(bytes) gives {str(base[1])[:200]}", eng.case_data(L, data=data, form=name, **extra), fsigs)
+    # a preceding read on the same stream
+    if not has_eof(tree) and extent:
+        one = body[:consumed].ljust(consumed, b"\x00")  # the extent may end in alignment padding beyond the input
+        two = one + one
+        A2 = consumed
+        s = io.BytesIO(two + b"\x00" * 8)
+        try:
+            o1 = T(s)
+            mid = s.tell()
+            o2 = T.read(s) if (not align or mid % A == 0) else None
+            if o2 is not None and (not eq(impl.canon(o1), impl.canon(o2)) or s.tell() != 2 * A2):
+                eng.report("a second parse on the same stream differs from the first one on identical bytes", eng.case_data(L, data=two, **extra), sigs)
+            res.feat("preceding-read")
+        except Exception as e:  # noqa: BLE001
+            eng.report(f"two consecutive parses on one stream raise {type(e).__name__}", eng.case_data(L, data=two, **extra), sigs)
+
+
+def run_unions(env, eng, res, rnd):
+    """top-level union types in the offset / input-kind x call-form / preceding-read matrix"""
+    tier = env["tier"]
+    for _ in range(120 if tier == "quick" else 1500):
+        tree, kind = s3_c09.union_tree(rnd)
+        for endian, align, compiled in itertools.product("<>", (False, True), (False, True)):
+            if rnd.random() < (0.6 if tier == "quick" else 0.3):
+                continue
+            L, err = load(tree, endian=endian, align=align, compiled=compiled, pointer=rnd.choice(["uint64", "uint32", "uint16"]))
+            if L is None:
+                res.feat(f"union-rejected:{kind}:{type(err).__name__}")
+                continue
+            T = L.T
+            sigs = eng.sigs(L)
+            size = T.size if T.size is not None else 24
+            for _i in range(2):
+                body = base = None
+                for _try in range(4):
+                    cand = rand_bytes(rnd, size + rnd.choice([0, 8, 24]))
+                    w = parse_plain(T, cand)
+                    if w[0] == "ok":
+                        body, base = cand, w
+                        break
+                if body is None:
+                    res.feat(f"union:{kind}:no accepted input")
+                    continue
+                res.feat(f"top-level-union:{kind}")
+                for k, v in defs.features(tree).items():
+                    res.feat(k, v)
+                # dynamically sized unions used to leave the stream after their LAST member and to record absolute positions as member
+                # sizes; found by this probe, repaired (fixed F41): they now get the full extent / truncation / preceding-read probes
+                extent = True
+                # the model driver's `read` reports member sizes for structures only: no model comparison for top-level unions
+                probe(eng, res, rnd, L, T, tree, body, base, sigs, model=False, extent=extent)
+        if len(eng.lines) > 4000:
+            eng.flush()
+    eng.flush()
+
+
+def run_long(env, eng, res, rnd):
+    """long runs, valid by construction: the independent reference parser says what the value and the encoded size are"""
+    tier = env["tier"]
+    dummy = ("struct", [{"name": "x", "ty": ("sc", "uint8"), "bits": None}])
+    for _ in range(150 if tier == "quick" else 2000):
+        case = s3_c09.long_case(rnd)
+        tree = case["tree"]
+        for endian, align, compiled in itertools.product("<>", (False, True), (False, True)):
+            if rnd.random() < (0.6 if tier == "quick" else 0.3):
+                continue
+            body = case["make"](endian, align)
+            if body is None:
+                continue
+            if case["standalone"]:
+                L, err = load(dummy, endian=endian, align=align, compiled=compiled)
+                if L is None:
+                    continue
+                en, dim = case["standalone"]
+                L.tree = tree
+                T = getattr(L.cs, en)[dim]
+                note = f"T = cs.{en}[{dim}]"
+            else:
+                L, err = load(tree, endian=endian, align=align, compiled=compiled)
+                if L is None:
+                    eng.report(f"definition rejected: {type(err).__name__}: {err}", {"definition": defs.render_struct("T", tree)}, [])
+                    continue
+                T, note = L.T, None
+            sigs = eng.sigs(L)
+            cfg = refimpl.Cfg(endian, align, "uint64", impl.CONSTS)
+            try:
+                rv, rend, _ = refimpl.parse(tree, body, 0, cfg)
+                ref = ("ok", rv, rend)
+            except refimpl.Short:
+                ref = ("err", "EOFError")
+            except refimpl.Bad:
+                ref = ("err", "Bad")
+            if ref[0] != "ok" or rend != len(body):
+                res.feat("long: constructed input not accepted by the reference parser")
+                continue
+            res.feat("long:" + case["label"].rsplit(":", 1)[0] if case["label"].count(":") < 4 else "long:two")
+            res.feat("long-length:" + ("<64" if len(body) < 64 else "64..127" if len(body) < 128 else "128..255" if len(body) < 256 else ">=256"))
+            extra = {"type": note} if note else {}
+            # (a) the bytes on their own, with and without trailing bytes: value and encoded size are those of the reference
+            for trail in (b"", bytes(rnd.randrange(256) for _ in range(rnd.choice([1, 7, 150])))):
+                if case["form"] == "eof" and trail:
+                    continue
+                got = parse_plain(T, body + trail)
+                res.count((L.text, note, endian, align, compiled, body, len(trail), "long"), True)
+                if got[0] != "ok" or not eq(got[1], ref[1]) or got[2] != rend:
+                    eng.report(f"parsing {case['label']} ({len(body)} bytes + {len(trail)} trailing) gives {str(got[1])[:120]}... leaving the stream at "
+                               f"{got[2] if got[0] == 'ok' else None}; the value is {str(ref[1])[:120]}... with encoded size {rend}",
+                               eng.case_data(L, data=body + trail, pos=0, **extra), sigs)
+            base = parse_plain(T, body)
+            if base[0] != "ok":
+                continue
+            # (b) offsets, input kinds x call forms, consecutive reads
+            probe(eng, res, rnd, L, T, tree, body, base, sigs, model=(len(body) < 400), named=not case["standalone"], note=note)
+            # (c) consecutive reads of different records on one stream
+            if case["form"] != "eof":
+                body2 = case["make"](endian, align)
+                s = io.BytesIO(body + body2 + body)
+                try:
+                    vals = []
+                    for _j in range(3):
+                        v = T.read(s)
+                        vals.append((impl.canon(v), s.tell()))
+                    want = [(parse_plain(T, b)[1], e) for b, e in ((body, len(body)), (body2, len(body) + len(body2)), (body, 2 * len(body) + len(body2)))]
+                    ok = all(eq(a[0], b[0], False) and a[1] == b[1] for a, b in zip(vals, want))
+                except Exception as e:  # noqa: BLE001
+                    ok, vals = False, repr(e)
+                res.feat("long: three consecutive records")
+                if not ok:
+                    eng.report(f"three consecutive {case['label']} records on one stream: positions/values {str([x[1] for x in vals] if isinstance(vals, list) else vals)[:200]}, "
+                               f"expected ends {[len(body), len(body) + len(body2), 2 * len(body) + len(body2)]}",
+                               eng.case_data(L, data=body + body2 + body, **extra), sigs)
+        if len(eng.lines) > 3000:
+            eng.flush()
+    eng.flush()
+
+
 def run(env) -> Result:
     res = Result()
     res.rule = ("seeded random definition trees x {<,>} x {packed, aligned} x {interpreted, compiled}; start offsets 0..17 plus large ones "
                 "(aligned structures: multiples of the structure alignment), random bytes before the start and after the extent, input kinds "
                 "bytes/bytearray/memoryview/BytesIO/minimal file object x call forms T(x)/T.read/T.reads/cs.read, a preceding parse on the same "
-                "stream. distinct = (definition, config, input, offset, kind); non-trivial = offset > 0 or a non-bytes input kind")
+                "stream. The same matrix on top-level union types (unused bit-field bits, padding, smaller first member, dynamically sized) and on "
+                "long runs valid by construction (0..520 elements, null-terminated / expression / EOF arrays of char, wchar, ints, enum, LEB128, "
+                "structures; stand-alone, followed by fields, nested, three consecutive records), value and encoded size from the reference parser. "
+                "distinct = (definition, config, input, offset, kind); non-trivial = offset > 0 or a non-bytes input kind")
     eng = Engine(env, res, "C09")
     rnd = mkrng(env["seed"], "c09")
     tier = env["tier"]
@@ -64,68 +291,20 @@ def run(env) -> Result:
                 continue
             for k, v in defs.features(tree).items():
                 res.feat(k, v)
-            consumed = base[2]
-            A = max(1, T.alignment or 1) if align else 1
-            offsets = sorted({0, A, 2 * A, 3 * A, 16 * A, A * rnd.randint(1, 40)} | (set(range(0, 18)) if not align else set()))
-            for p in offsets:
-                pre = bytes(rnd.randrange(256) for _ in range(p))
-                # bytes after the extent are replaced by noise (EOF arrays own the rest of the input by definition)
-                tail = body[consumed:] if has_eof(tree) else bytes(rnd.randrange(256) for _ in range(rnd.choice([0, 1, 9])))
-                data = (pre + body) if has_eof(tree) else (pre + body[:consumed].ljust(consumed, b"\x00") + tail)
-                s = io.BytesIO(data)
-                s.seek(p)
-                try:
-                    obj = T(s) if p == 0 else T.read(s)
-                    got = ("ok", impl.canon(obj), s.tell())
-                except Exception as e:  # noqa: BLE001
-                    got = ("err", impl.err_class(e))
-                res.count((L.text, endian, align, compiled, body, p, "offset"), p > 0)
-                res.feat("offset>0" if p else "offset=0")
-                cd = eng.case_data(L, data=data, pos=p)
-                if got[0] != "ok" or not impl.same_val(base[1], got[1], ignore_union_buf=True) or got[2] != p + consumed:
-                    eng.report(f"parsing at offset {p} gives {str(got)[:220]}; the bytes on their own give {str(base[1])[:200]} consuming {consumed}", cd, sigs)
-                if "F23" not in sigs and not compiled:
-                    eng.model_read(L, data, p, (got[0], got[1], got[2], base[3]) if got[0] == "ok" else got, f"read at offset {p}", sigs)
-            # input kinds and call forms on the bytes alone
-            data = body
-            forms = {
-                "T(bytes)": lambda: T(data), "T(bytearray)": lambda: T(bytearray(data)), "T(memoryview)": lambda: T(memoryview(data)),
-                "T(BytesIO)": lambda: T(io.BytesIO(data)), "T(file-like)": lambda: T(MiniFile(data)),
-                "T.read(bytes)": lambda: T.read(data), "T.read(BytesIO)": lambda: T.read(io.BytesIO(data)), "T.read(memoryview)": lambda: T.read(memoryview(data)),
-                "T.reads(bytes)": lambda: T.reads(data), "T.reads(bytearray)": lambda: T.reads(bytearray(data)),
-                "cs.read(name, bytes)": lambda: L.cs.read("T", data), "cs.read(name, BytesIO)": lambda: L.cs.read("T", io.BytesIO(data)),
-            }
-            for name, fn in forms.items():
-                try:
-                    got = ("ok", impl.canon(fn()))
-                except Exception as e:  # noqa: BLE001
-                    got = ("err", impl.err_class(e))
-                res.count((L.text, endian, align, compiled, body, name), True)
-                res.feat("form:" + name)
-                if got[0] != "ok" or not impl.same_val(base[1], got[1], ignore_union_buf=True):
-                    eng.report(f"{name} gives {str(got)[:200]}, T(bytes) gives {str(base[1])[:200]}", eng.case_data(L, data=data, form=name), sigs)
-            # a preceding read on the same stream
-            if not has_eof(tree):
-                one = body[:consumed].ljust(consumed, b"\x00")  # the extent may end in alignment padding beyond the input
-                two = one + one
-                A2 = consumed
-                s = io.BytesIO(two + b"\x00" * 8)
-                try:
-                    o1 = T(s)
-                    mid = s.tell()
-                    o2 = T.read(s) if (not align or mid % A == 0) else None
-                    if o2 is not None and (not impl.same_val(impl.canon(o1), impl.canon(o2), ignore_union_buf=True) or s.tell() != 2 * A2):
-                        eng.report("a second parse on the same stream differs from the first one on identical bytes", eng.case_data(L, data=two), sigs)
-                    res.feat("preceding-read")
-                except Exception as e:  # noqa: BLE001
-                    eng.report(f"two consecutive parses on one stream raise {type(e).__name__}", eng.case_data(L, data=two), sigs)
+            probe(eng, res, rnd, L, T, tree, body, base, sigs)
         if len(eng.lines) > 4000:
             eng.flush()
     eng.flush()
+    run_unions(env, eng, res, mkrng(env["seed"], "c09-unions"))
+    run_long(env, eng, res, mkrng(env["seed"], "c09-long"))
     return res
 
 
 def replay(body) -> int:
     print("replay:", body.get("what"))
-    print(body.get("case", {}).get("repro"), body.get("case", {}).get("data"), body.get("case", {}).get("pos"))
+    case = body.get("case", {})
+    print(case.get("repro"))
+    for k, v in case.items():
+        if k not in ("repro", "definition"):
+            print(f"  {k}: {v}")
     return 0
